@@ -11,6 +11,7 @@ package main
 import (
 	"encoding/json"
 	"sort"
+	"strconv"
 	"strings"
 	"time"
 
@@ -35,20 +36,21 @@ func admissible(fn string, n int) bool {
 	return ar[1] < 0 || n <= ar[1]
 }
 
-func worker(w *runner.W) {
-	b := newBuilders()
-	quick := w.Quick()
-	only := w.Param("fn", "") // -p fn=bucket restricts the run (debugging only; marks the run capped)
-	if only != "" {
-		w.Cap("restricted to helper " + only)
-	}
-	fams := families()
-	// pass 1: the product spaces of every family (pools as sets), so that a
-	// tuple a helper already received from an earlier product is not executed
-	// (and counted) twice
-	type space []map[string]bool
-	spaces := make([][]space, len(fams))
-	for i, f := range fams {
+// enumeration of the tuple families: the product spaces of every family (pools
+// as sets), so that a tuple a helper already received from an earlier product
+// is not executed (and counted) twice
+type space []map[string]bool
+
+type enumeration struct {
+	quick  bool
+	fams   []family
+	spaces [][]space
+}
+
+func newEnumeration(quick bool) *enumeration {
+	e := &enumeration{quick: quick, fams: families()}
+	e.spaces = make([][]space, len(e.fams))
+	for i, f := range e.fams {
 		f.gen(quick, func(pools ...[]string) {
 			sp := make(space, len(pools))
 			for k, p := range pools {
@@ -57,73 +59,105 @@ func worker(w *runner.W) {
 					sp[k][s] = true
 				}
 			}
-			spaces[i] = append(spaces[i], sp)
+			e.spaces[i] = append(e.spaces[i], sp)
 		})
 	}
+	return e
+}
+
+// tuples calls emit for every argument tuple helper fn receives from family i
+// that it did not already receive from an earlier family or an earlier product
+// of the same family; emit returns false to stop.
+func (e *enumeration) tuples(i int, fn string, emit func(args []string) bool) {
+	f := e.fams[i]
+	var earlier []space
+	for j := 0; j < i; j++ {
+		for _, g := range e.fams[j].fns {
+			if g == fn {
+				earlier = append(earlier, e.spaces[j]...)
+			}
+		}
+	}
+	prodNo := 0
+	stop := false
+	f.gen(e.quick, func(pools ...[]string) {
+		cover := append(append([]space(nil), earlier...), e.spaces[i][:prodNo]...)
+		prodNo++
+		if stop || !admissible(fn, len(pools)) {
+			return
+		}
+		n := 0
+		for _, sp := range cover {
+			if len(sp) == len(pools) {
+				cover[n] = sp
+				n++
+			}
+		}
+		cover = cover[:n]
+		product(func(args ...string) {
+			if stop {
+				return
+			}
+			for _, sp := range cover {
+				in := true
+				for k, a := range args {
+					if !sp[k][a] {
+						in = false
+						break
+					}
+				}
+				if in {
+					return // already executed for this helper
+				}
+			}
+			if !emit(args) {
+				stop = true
+			}
+		}, pools...)
+	})
+}
+
+func worker(w *runner.W) {
+	b := newBuilders()
+	quick := w.Quick()
+	only := w.Param("fn", "") // -p fn=bucket restricts the run (debugging only; marks the run capped)
+	if only != "" {
+		w.Cap("restricted to helper " + only)
+	}
+	e := newEnumeration(quick)
 	var caseNo int64
 	stop := false
 	owned := 0
-	for i, f := range fams {
+	// part 1: every tuple compiled fresh, every subset of arguments from groups
+	for i, f := range e.fams {
 		for _, fn := range f.fns {
 			if only != "" && fn != only {
 				continue
 			}
-			var earlier []space
-			for j := 0; j < i; j++ {
-				for _, g := range fams[j].fns {
-					if g == fn {
-						earlier = append(earlier, spaces[j]...)
-					}
+			e.tuples(i, fn, func(args []string) bool {
+				caseNo++
+				if !w.Owns(caseNo) {
+					return true
 				}
-			}
-			prodNo := 0
-			f.gen(quick, func(pools ...[]string) {
-				cover := append(append([]space(nil), earlier...), spaces[i][:prodNo]...)
-				prodNo++
-				if stop || !admissible(fn, len(pools)) {
-					return
+				owned++
+				if owned%512 == 0 && w.Expired() {
+					stop = true
+					return false
 				}
-				n := 0
-				for _, sp := range cover {
-					if len(sp) == len(pools) {
-						cover[n] = sp
-						n++
-					}
-				}
-				cover = cover[:n]
-				product(func(args ...string) {
-					if stop {
-						return
-					}
-					for _, sp := range cover {
-						in := true
-						for k, a := range args {
-							if !sp[k][a] {
-								in = false
-								break
-							}
-						}
-						if in {
-							return // already executed for this helper
-						}
-					}
-					caseNo++
-					if !w.Owns(caseNo) {
-						return
-					}
-					owned++
-					if owned%512 == 0 && w.Expired() {
-						stop = true
-						return
-					}
-					runTuple(w, b, f.name, i, len(fams), fn, args)
-				}, pools...)
+				runTuple(w, b, f.name, i, len(e.fams), fn, args)
+				return true
 			})
 			if stop {
 				return
 			}
 		}
 	}
+	// part 2: SIZE sweeps
+	if !runSizeFamily(w, b, only, &caseNo) {
+		return
+	}
+	// part 3: HISTORY: one compiled expression over the whole tuple list
+	runHistoryFamily(w, b, e, only, &caseNo)
 }
 
 var sampled int // samples taken by this worker (spreads the samples over the families)
@@ -177,6 +211,14 @@ func replay(w *runner.W, raw json.RawMessage) {
 		panic(err)
 	}
 	b := newBuilders()
+	switch c.Kind {
+	case "size":
+		replaySize(w, b, c)
+		return
+	case "history", "history-kept":
+		replayHistory(w, b, c)
+		return
+	}
 	r := b.runCase(c)
 	c.Template, c.Groups = r.tmpl, r.groups
 	if r.sig != "" {
@@ -196,7 +238,18 @@ func rule(prop, tier string) string {
 		sort.Strings(fns)
 		sb.WriteString(f.name + " [" + strings.Join(fns, ",") + "]: " + f.desc(quick))
 	}
-	sb.WriteString(". A tuple a helper already received from an earlier family is skipped, so every evaluation is a distinct (helper, arguments, group subset, optimiser) case. non-trivial = compiled without error, the helper returned a value that is not an error marker, and the documentation pins the answer for that input (accept-anything inputs such as bucket size <= 0, negative substr positions, NaN, dot paths are executed for panics only and counted as trivial)")
+	sb.WriteString(". A tuple a helper already received from an earlier family is skipped, so every evaluation of this part is a distinct (helper, arguments, group subset, optimiser) case. ")
+	sb.WriteString("SIZE family (signatures end in /size-family): fixed shapes parametrised by n, run for n = 0..70 and 2^k-1, 2^k, 2^k+1 (k >= 7) up to " + strconv.Itoa(pickInt(quick, sizeCapQuick, sizeCapThorough)) + " (number shapes: up to " + strconv.Itoa(pickInt(quick, 130, 1025)) + " digits), each with all arguments as constants, all from groups, and with the documented literals as constants and the rest from groups, optimiser on and off, judged by the same reference model: ")
+	for i, sh := range sizeShapes() {
+		if i > 0 {
+			sb.WriteString("; ")
+		}
+		fns := append([]string(nil), sh.fns...)
+		sort.Strings(fns)
+		sb.WriteString(sh.name + " [" + strings.Join(fns, ",") + "]: " + sh.what)
+	}
+	sb.WriteString(" (a number-of-decimals argument longer than 4 digits is not executed). ")
+	sb.WriteString("HISTORY family: for every helper x arity of the tuple families x argument style {every argument from a group; documented literals as constants and the rest from groups; first argument from a group and the rest constants} x optimiser {on, off}, the template is compiled ONCE per distinct constant part and that one compiled expression is evaluated over the helper's whole tuple list forward, in reverse order, alternately on neighbouring tuples (A,B,A,B) and alternately on tuples i and n-1-i; every result must equal what a fresh compilation of the same template returns for that tuple alone (signature C11/<helper>/value-depends-on-earlier-evaluations), and the strings returned by the forward pass must still read the same after all later evaluations (C11/<helper>/returned-value-changed-by-later-evaluations). non-trivial = compiled without error, the helper returned a value that is not an error marker, and the documentation pins the answer for that input (accept-anything inputs such as bucket size <= 0, negative substr positions, NaN, dot paths are executed for panics only and counted as trivial); a HISTORY evaluation is non-trivial when the fresh result it must equal is not an error marker")
 	return sb.String()
 }
 
@@ -212,6 +265,8 @@ func main() {
 				"humanize.Enabled=true, humanize.Decimals=4 (the start-up defaults); locale-dependent behaviour is not claimed",
 				"match groups are supplied through expressions.KeyBuilderContextArray; a constant is written quoted/escaped so that it reaches the helper verbatim (self-tested per constant with an identity helper)",
 				"int64 wrap-around of sumi/subi/multi, NaN/Inf results, dynamic values for arguments documented as literals, and inputs the documentation does not describe are accepted, not judged",
+				"history independence is checked on one goroutine and against a fresh compilation by the same long-lived KeyBuilder (funclib registry); a compiled expression is probed once on an empty match by the optimiser before its first evaluation, in the fresh compilation as well",
+				"SIZE sweeps stop at the cap of the tier; between the swept sizes (71..126, 130..254, ...) only the tuple families' values are covered",
 			}
 		},
 		Worker:         worker,
